@@ -15,6 +15,7 @@ Record nconn := {
   nc_seq : N;
   nc_expire : N;
   nc_replay : replay;
+  nc_chal_floor : N;                   (* first_challenge_sequence *)
 }.
 
 Record token_entry := { te_time : N; te_addr : addr; te_mac : list N }.
@@ -74,13 +75,16 @@ Definition set_max (s : nserver) m := {| ns_clients := ns_clients s; ns_pending 
 
 Definition nc_with_replay (c : nconn) rp := {| nc_confirmed := nc_confirmed c; nc_id := nc_id c; nc_send_key := nc_send_key c;
   nc_recv_key := nc_recv_key c; nc_user := nc_user c; nc_addr := nc_addr c; nc_last_recv := nc_last_recv c;
-  nc_last_send := nc_last_send c; nc_timeout := nc_timeout c; nc_seq := nc_seq c; nc_expire := nc_expire c; nc_replay := rp |}.
+  nc_last_send := nc_last_send c; nc_timeout := nc_timeout c; nc_seq := nc_seq c; nc_expire := nc_expire c; nc_replay := rp;
+  nc_chal_floor := nc_chal_floor c |}.
 Definition nc_received (c : nconn) (now : N) := {| nc_confirmed := true; nc_id := nc_id c; nc_send_key := nc_send_key c;
   nc_recv_key := nc_recv_key c; nc_user := nc_user c; nc_addr := nc_addr c; nc_last_recv := now;
-  nc_last_send := nc_last_send c; nc_timeout := nc_timeout c; nc_seq := nc_seq c; nc_expire := nc_expire c; nc_replay := nc_replay c |}.
+  nc_last_send := nc_last_send c; nc_timeout := nc_timeout c; nc_seq := nc_seq c; nc_expire := nc_expire c; nc_replay := nc_replay c;
+  nc_chal_floor := nc_chal_floor c |}.
 Definition nc_sent (c : nconn) (now : N) := {| nc_confirmed := nc_confirmed c; nc_id := nc_id c; nc_send_key := nc_send_key c;
   nc_recv_key := nc_recv_key c; nc_user := nc_user c; nc_addr := nc_addr c; nc_last_recv := nc_last_recv c;
-  nc_last_send := now; nc_timeout := nc_timeout c; nc_seq := nc_seq c + 1; nc_expire := nc_expire c; nc_replay := nc_replay c |}.
+  nc_last_send := now; nc_timeout := nc_timeout c; nc_seq := nc_seq c + 1; nc_expire := nc_expire c; nc_replay := nc_replay c;
+  nc_chal_floor := nc_chal_floor c |}.
 
 (* ---------------- lookups ---------------- *)
 Fixpoint find_slot_by (f : nconn -> bool) (cl : list (option nconn)) (i : N) : option (N * nconn) :=
@@ -193,12 +197,14 @@ Definition handle_request (s : nserver) (a : addr) (version : list N) (protocol 
                 let fresh := {| nc_confirmed := false; nc_id := pt_client_id t; nc_send_key := pt_s2c t;
                                 nc_recv_key := pt_c2s t; nc_user := pt_user t; nc_addr := a;
                                 nc_last_recv := ns_now s3; nc_last_send := ns_now s3; nc_timeout := pt_timeout t;
-                                nc_seq := 0; nc_expire := expire; nc_replay := replay_new |} in
+                                nc_seq := 0; nc_expire := expire; nc_replay := replay_new;
+  nc_chal_floor := cseq |} in
                 let entry := match pend_find a (ns_pending s3) with
                              | Some old => {| nc_confirmed := nc_confirmed old; nc_id := nc_id old; nc_send_key := nc_send_key old;
                                               nc_recv_key := nc_recv_key old; nc_user := nc_user old; nc_addr := nc_addr old;
                                               nc_last_recv := ns_now s3; nc_last_send := ns_now s3; nc_timeout := nc_timeout old;
-                                              nc_seq := nc_seq old; nc_expire := nc_expire old; nc_replay := nc_replay old |}
+                                              nc_seq := nc_seq old; nc_expire := nc_expire old; nc_replay := nc_replay old;
+  nc_chal_floor := nc_chal_floor old |}
                              | None => fresh
                              end in
                 (set_pending s3 (pend_put a entry (ns_pending s3)), Ok (SRPacketToSend a out))
@@ -249,6 +255,7 @@ Definition process_packet_internal (s : nserver) (a : addr) (buf : list N) : nse
                   | Err e => (s1, Err e)
                   | Panic p => (s1, Panic p)
                   | Ok (cid, cuser) =>
+                      if tseq <? nc_chal_floor pc1 then (s1, Ok SRNone) else
                       if negb (cid =? nc_id pc1) || negb (bytes_eqb cuser (nc_user pc1)) then (s1, Ok SRNone) else
                       let s2 := set_pending s1 (pend_remove a (ns_pending s1)) in
                       match find_by_id s2 cid with
@@ -267,7 +274,8 @@ Definition process_packet_internal (s : nserver) (a : addr) (buf : list N) : nse
                                   let c := {| nc_confirmed := nc_confirmed pc1; nc_id := nc_id pc1; nc_send_key := nc_send_key pc1;
                                               nc_recv_key := nc_recv_key pc1; nc_user := cuser; nc_addr := nc_addr pc1;
                                               nc_last_recv := ns_now s2; nc_last_send := ns_now s2; nc_timeout := nc_timeout pc1;
-                                              nc_seq := nc_seq pc1 + 1; nc_expire := nc_expire pc1; nc_replay := nc_replay pc1 |} in
+                                              nc_seq := nc_seq pc1 + 1; nc_expire := nc_expire pc1; nc_replay := nc_replay pc1;
+  nc_chal_floor := nc_chal_floor pc1 |} in
                                   (set_slot s2 idx (Some c), Ok (SRConnected (nc_id c) a (nc_user c) out))
                               | Err e => (s2, Err e)
                               | Panic p => (s2, Panic p)
